@@ -201,7 +201,7 @@ def run(tier):
     items = []
     for ci, cn in enumerate(["v2c", "v3-sha1-aes"]):
         for vi, v in enumerate(cvals):
-            if (vi + ci * 3 + SEED) % (11 if not thorough else 2):
+            if (vi + ci * 3 + SEED) % (11 if not thorough else 3):
                 continue
             val = ("raw", bytes(v["tlv"]))
             for oi, op in enumerate(("get", "get_many")):
